@@ -17,6 +17,7 @@ import (
 type Stats struct {
 	Exprs, Positions, EOLs, MidRune, MultiLine, MultiByte, MBBefore  int
 	Symbols, GoBlocksNoSymbol, MapEntries, StrayEqual, StrayNoSource int
+	BlankMapped                                                      int               // empty/blank expressions with a map entry, checked by R9
 	Slots                                                            map[string][3]int // slot -> {expressions, multi-line, multi-byte}
 }
 
@@ -271,6 +272,58 @@ func CheckSourceMap(a *ptree.Accepted) ([]ptree.Alarm, Stats) {
 			if tgt, ok = symbol("GoBlock", n.Expression.Range, "Go block"); ok && !strings.HasPrefix(gen[tgt.From.Index:tgt.To.Index], v) {
 				alarm("symbol-enclose", "GoBlock", "Go block %q: recorded target range %d..%d does not start with the block's text but with %q", ptree.Clip(v, 60), tgt.From.Index, tgt.To.Index, ptree.Clip(gen[tgt.From.Index:tgt.To.Index], 60))
 			}
+		}
+	}
+	// R9: an expression written inside a templ/css/script declaration is mapped
+	// into that declaration. Checked for the start position of every expression
+	// that has a map entry, including empty ones (script f(): the position
+	// between the parentheses is the "just past the end" position of an empty
+	// expression; it has no byte to compare, so this and the round trip are
+	// what can be demanded of it).
+	type decl struct{ src, tgt parser.Range }
+	var decls []decl
+	for _, n := range a.TF.Nodes {
+		var r parser.Range
+		switch n := n.(type) {
+		case parser.HTMLTemplate:
+			r = n.Range
+		case parser.CSSTemplate:
+			r = n.Range
+		case parser.ScriptTemplate:
+			r = n.Range
+		default:
+			continue
+		}
+		if tgt, ok := sm.SymbolTargetRangeFromSource(r.From.Line, r.From.Col); ok && posOK(gl, tgt.From) && posOK(gl, tgt.To) {
+			decls = append(decls, decl{r, tgt})
+		}
+	}
+	for _, x := range items.Exprs {
+		k := int(x.E.Range.From.Index)
+		blank := strings.TrimSpace(x.E.Value) == ""
+		if k < 0 || k > len(src) || blank && (inside[k] || x.E.Range == (parser.Range{})) {
+			continue
+		}
+		for _, d := range decls {
+			if int64(k) < d.src.From.Index || int64(k) > d.src.To.Index {
+				continue
+			}
+			line, col := sl.Pos(k)
+			tp, ok := sm.TargetPositionFromSource(uint32(line), uint32(col))
+			if !ok {
+				break
+			}
+			if blank {
+				st.BlankMapped++
+			}
+			if tp.Index < d.tgt.From.Index || tp.Index > d.tgt.To.Index || !posOK(gl, tp) {
+				alarm("outside-declaration", x.Slot, "expression %q at source %d:%d lies in the declaration at source %d:%d (generated %d..%d) but maps to generated %v", ptree.Clip(x.E.Value, 40), line, col, d.src.From.Line, d.src.From.Col, d.tgt.From.Index, d.tgt.To.Index, tp)
+			} else if blank {
+				if sp, ok := sm.SourcePositionFromTarget(tp.Line, tp.Col); !ok || sp != parser.NewPosition(int64(k), uint32(line), uint32(col)) {
+					alarm("roundtrip", x.Slot, "empty expression at source %d:%d (index %d) maps to target %d:%d which maps back to %v (ok=%v)", line, col, k, tp.Line, tp.Col, sp, ok)
+				}
+			}
+			break
 		}
 	}
 	sort.Slice(alarms, func(i, j int) bool {
